@@ -1157,7 +1157,6 @@ class LogixDriver(CIPDriver):
                     tag_data["write_value"],
                 )
                 request.build_message()
-                request._msg_setup = False
 
                 req_size = len(request.message)
                 if req_size > self.connection_size:
@@ -1222,7 +1221,6 @@ class LogixDriver(CIPDriver):
                     parsed_tag["write_value"],
                 )
                 request.build_message()
-                request._msg_setup = False
 
                 req_size = len(parsed_tag["write_value"]) + len(request.message)
                 if req_size > self.connection_size:
